@@ -108,6 +108,9 @@ extern long vh_syscall(long nr, ...);
 #include <poll.h>
 extern int vh_poll(void *fds, unsigned long n, int ms);
 #define poll(a,b,c) vh_poll((void*)(a),(b),(c))
+#include <signal.h>
+extern int vh_pthread_sigmask(int how, const sigset_t *set, sigset_t *old);
+#define pthread_sigmask(h,s,o) vh_pthread_sigmask(h,s,o)
 extern int vh_usleep(unsigned us);
 #define usleep(x) vh_usleep(x)
 #endif
